@@ -471,12 +471,50 @@ class OpenFile(Contract):
         return S.Sym(S.STR, fs_text(S.term(fn)))
 
 
+def _before_hash(line):
+    """the text before the first '#', or the whole line when there is none"""
+    if not S.is_sym(line):
+        return line[:line.index("#")] if "#" in line else line
+    t, c = line.t, z3.StringVal("#")
+    return S.Sym(S.STR, z3.If(z3.Contains(t, c), z3.SubString(t, 0, z3.IndexOf(t, c, 0)), t))
+
+
+def _nwords(x):
+    return len(x.split()) if not S.is_sym(x) else S.Sym(S.INT, S.py_nwords(x.t))
+
+
+def _word(x, i):
+    return S._native_word(x, i) if not S.is_sym(x) else S.Sym(S.STR, S.py_word(x.t, z3.IntVal(i)))
+
+
 @register
 class GetIncludeFilename(Contract):
-    """second blank-separated word of the part before '#', outer quotes removed (bounded check, see bounded/)"""
+    """second blank-separated word of the part before '#', outer quotes removed; ParseError exactly when
+    there are fewer than two words (the message text is not modelled).  Proved for every line over the assumed model of str.split() (word count
+    and i-th word uninterpreted, models.WordList) and the exact model of split('#')[0]; the built-in itself is exercised
+    by the bounded lemma of bounded/seams3.py.  Callers see the uninterpreted include_filename(line)."""
     target = "mappyfile.parser.Parser._get_include_filename"
-    cases = []
+    cases = ["with-comment", "without-comment"]
     props = ("C15",)
+    modifies = ()
+
+    def build(self, E, case):
+        line = E.str("line")
+        E.assume(S.contains(line, "#") if case == "with-comment" else S.not_(S.contains(line, "#")))
+        return (mk_parser(E), line), {}
+
+    def ensures(self, E, case, args, kwargs, out):
+        from lark import ParseError
+        p, line = args
+        pre = _before_hash(line)
+        n = _nwords(pre)
+        if out.kind == "raise":
+            yield "raises-only-ParseError", out.raised(ParseError)
+            yield "raises-only-without-a-file-name", S.cmp("<", n, 2)
+            return
+        yield "returns-only-with-a-file-name", S.cmp(">=", n, 2)
+        yield "second-word-with-outer-quotes-removed", S.eq(
+            out.value, S.strip_chars(S.strip_chars(_word(pre, 1), "'"), '"'))
 
     def at_call(self, E, p, line):
         return S.Sym(S.STR, inc_name(S.term(line)))
